@@ -781,13 +781,15 @@ class CodeGenerator:
         return value
 
     def is_module_ref(self, expr):
-        """Determine whether a module is referenced"""
+        """Determine whether a module is referenced: expr is module.name"""
         if isinstance(expr, ast.Member):
             if isinstance(expr.base, ast.Identifier):
                 target = self.context.resolve_symbol(expr.base)
                 return isinstance(target, ast.Module)
-            elif isinstance(expr, ast.Member):
-                return self.is_module_ref(expr.base)
+            elif self.is_module_ref(expr.base):
+                # The base is module.name, which can be a module again:
+                target = self.context.resolve_symbol(expr.base)
+                return isinstance(target, ast.Module)
         return False
 
     def gen_member_expr(self, expr):
